@@ -19,6 +19,7 @@ ASSUMPTIONS = [
     'zero-length writes inside the range are driven too and must change nothing',
 ]
 EXHAUSTIVE = {'quick': False, 'thorough': False}
+PYOPT_KINDS = ('history',)
 BOUNDS = [0, 0x2000, 0x3000, 0x3100, 0x3200, 0x4300]
 KNOWN_KEYS = {'end-on-region-boundary'}
 
